@@ -804,8 +804,8 @@ def run(ctx):
                 "distinct = distinct corner lists")
     ctx.assumptions = [
         "np.mod / deg2rad / node_x,y,z of the grid are inputs of the model (C04 is about their agreement)",
-        "gca_gca_intersection / point_within_gca are idealised in the model's parity count (C14 is about them); "
-        "their float behaviour enters only through the differential comparison",
+        "the repaired pole test is the winding of the boundary about the polar axis (np.arctan2 is a parameter of the model); "
+        "point_within_gca enters only the 'pole on an edge' touch test and is idealised there (C14 is about it)",
         "tolerance clamp(1e-6*diameter, 1e-12, 1e-9) rad (+ 8e-16/distance-to-pole) for enclosure, attainment and model/implementation "
         "agreement (2e-5 rad when the coordinates are float32)",
         "dtype promotion / conversion of the supplied coordinates is exercised by the form dimension, not modelled (the model is over a field)",
